@@ -27,3 +27,169 @@ package rpc
 //@   resets[C18] s
 //@   retains s.recvMu
 //@   retains s.sendMu
+
+// ---- status and result transport (C04)
+//
+// Ghost strings keyed by the identity of a parsed message's byte view (viewId): the status code /
+// message and the result carried by a response. The generated prpc accessors and writers are
+// assumed (generated code is C05's subject); what is verified is that the rpc glue hands the
+// caller exactly those strings, never turns a failure into OK, and never swallows an error:
+// ghost(errMade, 0) == 1 records that an error status or error value was produced in this call.
+
+//@ define RK(m) = viewId(obj(m.msg.bytes), off(m.msg.bytes), len(m.msg.bytes))
+
+//@ func parseStatusCode
+//@   safety[C04]
+//@   ensures[C04] result == code
+
+//@ func parseStatusMessage
+//@   safety[C04]
+//@   ensures[C04] result == msg
+
+//@ func parseStatus
+//@   safety[C04]
+//@   ensures[C04] result.Code == gstr(stCode, RK(s)) && result.Message == gstr(stMsg, RK(s))
+
+//@ func parseResult
+//@   safety[C04]
+//@   ensures[C04] result1.Code == gstr(respCode, RK(resp))
+//@   ensures[C04] result1.Message == gstr(respMsg, RK(resp))
+//@   ensures[C04] result1.Code != "ok" ==> result0 == nil
+//@   ensures[C04] result1.Code == "ok" && ghost(resL, RK(resp)) > 0 ==>
+//@        obj(result0) == ghost(resO, RK(resp)) && off(result0) == ghost(resF, RK(resp)) && len(result0) == ghost(resL, RK(resp))
+//@   ensures[C04] result1.Code == "ok" && ghost(resL, RK(resp)) == 0 ==> result0 == nil
+
+//@ func Errorf
+//@   trusted
+//@   modifies ghost.errMade at 0
+//@   ensures result.Code == "rpc_error" && ghost(errMade, 0) == 1
+//@ func Error
+//@   trusted
+//@   modifies ghost.errMade at 0
+//@   ensures result.Code == "rpc_error" && ghost(errMade, 0) == 1
+//@ func WrapError
+//@   trusted
+//@   modifies ghost.errMade at 0
+//@   ensures result.Code == "rpc_error" && ghost(errMade, 0) == 1
+//@ func WrapErrorf
+//@   trusted
+//@   modifies ghost.errMade at 0
+//@   ensures result.Code == "rpc_error" && ghost(errMade, 0) == 1
+
+// server side: the response is built from the handler's status and result, no writer error is lost
+//@ func (builder).buildResponse
+//@   safety[C04]
+//@   requires buf != nil
+//@   modifies ghost.*
+//@   modifies @WRITER
+//@   modifies @BUF
+//@   ensures[C04] result1 == nil ==> ghost(errMade, 0) == old(ghost(errMade, 0))
+//@   ensures[C04] result1 == nil ==> gstr(wCode, 0) == st.Code && gstr(wMsg, 0) == st.Message
+
+//@ package github.com/basecomplextech/spec/proto/prpc
+
+//@ func (Status).Code
+//@   trusted
+//@   ensures result == gstr(stCode, RK(m))
+//@ func (Status).Message
+//@   trusted
+//@   ensures result == gstr(stMsg, RK(m))
+//@ func (Response).Status
+//@   trusted
+//@   ensures gstr(stCode, RK(result)) == gstr(respCode, RK(m)) && gstr(stMsg, RK(result)) == gstr(respMsg, RK(m))
+//@ func (Response).Result
+//@   trusted
+//@   ensures obj(result) == ghost(resO, RK(m)) && off(result) == ghost(resF, RK(m)) && len(result) == ghost(resL, RK(m))
+
+//@ func NewMessageWriterBuffer
+//@   trusted
+//@ func (MessageWriter).Type
+//@   trusted
+//@ func (MessageWriter).Resp
+//@   trusted
+//@ func (MessageWriter).Build
+//@   trusted
+//@   modifies ghost.errMade at 0
+//@   ensures result1 != nil ==> ghost(errMade, 0) == 1
+//@   ensures result1 == nil ==> ghost(errMade, 0) == old(ghost(errMade, 0))
+//@ func (ResponseWriter).Status
+//@   trusted
+//@ func (ResponseWriter).Result
+//@   trusted
+//@   ensures result.w != nil && WI(result.w)
+//@   ensures result.w.err == nil ==> STK1(result.w) && STK2(result.w) && STK3(result.w) && STK4(result.w) && STK5(result.w) && STK6(result.w) && STK7(result.w)
+//@ func (ResponseWriter).End
+//@   trusted
+//@   modifies ghost.errMade at 0
+//@   ensures result != nil ==> ghost(errMade, 0) == 1
+//@   ensures result == nil ==> ghost(errMade, 0) == old(ghost(errMade, 0))
+//@ func (StatusWriter).Code
+//@   trusted
+//@   modifies ghost.wCode.*
+//@   ensures gstr(wCode, 0) == v
+//@ func (StatusWriter).Message
+//@   trusted
+//@   modifies ghost.wMsg.*
+//@   ensures gstr(wMsg, 0) == v
+//@ func (StatusWriter).End
+//@   trusted
+//@   modifies ghost.errMade at 0
+//@   ensures result != nil ==> ghost(errMade, 0) == 1
+//@   ensures result == nil ==> ghost(errMade, 0) == old(ghost(errMade, 0))
+
+//@ package github.com/basecomplextech/spec/rpc
+
+// client call state: a receive failure is sticky and is never OK
+//@ func (*channelState).receiveFail
+//@   safety[C04]
+//@   requires s != nil && s.logger != nil
+//@   requires st.Code != "ok"
+//@   requires s.recvFailed ==> s.recvError.Code != "ok"
+//@   modifies rpc.channelState.recvFailed at s
+//@   modifies status.*
+//@   ensures[C04] s.recvFailed && s.recvError.Code != "ok"
+//@   ensures[C04] old(s.recvFailed) ==> s.recvError == old(s.recvError)
+//@   ensures[C04] !old(s.recvFailed) ==> s.recvError == st
+
+// The reference-counted state access (atomics) is assumed: acquire hands out the channel's state.
+//@ func (*channel).acquire
+//@   trusted
+//@   ensures result1 ==> result0 != nil && obj(result0) == ghost(stateOf, ch) && off(result0) == 0
+//@ func (*channel).release
+//@   trusted
+
+// receive: the mpx channel and the message parser are assumed; a failure is an error produced
+//@ func (*channelState).receive
+//@   trusted
+//@   modifies ghost.errMade at 0
+//@   ensures result1.Code != "ok" ==> ghost(errMade, 0) == 1
+//@   ensures result1.Code == "ok" ==> ghost(errMade, 0) == old(ghost(errMade, 0))
+
+// Response: OK only with the status the response carries and only if no error was produced; a
+// receive failure is recorded, is never OK, and every later call returns it again.
+//@ func (*channel).Response
+//@   safety[C04]
+//@   let s = cast(ghost(stateOf, ch), channelState)
+//@   requires ch != nil && ctx != nil && s.logger != nil
+//@   requires s.recvFailed ==> s.recvError.Code != "ok"
+//@   requires s.recvResp && s.resultOK ==> s.resultSt.Code == "ok"
+//@   modifies rpc.channelState.*
+//@   modifies status.*
+//@   modifies ghost.errMade at 0
+//@   ensures[C04] result1.Code == "ok" ==> ghost(errMade, 0) == old(ghost(errMade, 0))
+//@   ensures[C04] old(s.recvFailed) ==> (result1 == old(s.recvError) || result1.Code == "closed") && result0 == nil
+//@   ensures[C04] s.recvFailed ==> s.recvError.Code != "ok"
+//@   ensures[C04] result1.Code != "ok" ==> result0 == nil
+//@   loop 1 modifies rpc.channelState.recvEnd
+//@   loop 1 modifies ghost.errMade at 0
+//@   loop 1 invariant ghost(errMade, 0) == old(ghost(errMade, 0)) && !s.recvFailed
+
+//@ package github.com/basecomplextech/spec/proto/prpc
+//@ func (Message).Type
+//@   trusted
+//@ func (Message).Resp
+//@   trusted
+//@ func (Message).Msg
+//@   trusted
+//@ func (Message).Req
+//@   trusted
